@@ -49,7 +49,7 @@ func checkC10Loop(c C05Case, o *vcore.Obs) error {
 	appCommits := 0
 	commitsBy := map[string]int{}
 	commitIDs := map[string][]int64{} // instance -> LMDB transaction ids of its application's commits
-	heldPending := map[int]bool{} // instances whose application transaction is still open (commits during a later step)
+	heldPending := map[int]bool{}     // instances whose application transaction is still open (commits during a later step)
 	for oi, op := range c.Ops {
 		before := lm.LastTxnID(f.nodes[op.Inst%c.N].Env.Env)
 		if err := f.exec(oi, op); err != nil {
@@ -280,7 +280,14 @@ type RunOnceCase struct {
 
 func checkRunOnce(c RunOnceCase, o *vcore.Obs) error {
 	env := lm.New(64<<20, 24)
-	defer env.Close()
+	var ndForClose *Node
+	defer func() {
+		if ndForClose != nil {
+			ndForClose.CloseEnv()
+		} else {
+			env.Close()
+		}
+	}()
 	b := fault.NewBucket()
 	conf := BaseConfig("a")
 	conf.OnlyOnce = true
@@ -339,6 +346,7 @@ func checkRunOnce(c RunOnceCase, o *vcore.Obs) error {
 		h.SetPlan("load", fs)
 	}
 	nd := NewNode("a", env, h, conf, config.LMDB{SchemaTracksChanges: c.Native}, syncer.Options{})
+	ndForClose = nd
 	defer nd.Forget()
 	defer nd.Stop()
 	y, err := nd.Start()
@@ -446,12 +454,20 @@ func TestC16RunOnce(t *testing.T) {
 
 func checkReceiveOnly(c C05Case, o *vcore.Obs) error {
 	env := lm.New(64<<20, 24)
-	defer env.Close()
+	var ndForClose *Node
+	defer func() {
+		if ndForClose != nil {
+			ndForClose.CloseEnv()
+		} else {
+			env.Close()
+		}
+	}()
 	b := fault.NewBucket()
 	conf := BaseConfig("ro")
 	conf.Storage.Cleanup = config.Cleanup{Enabled: true, Interval: time.Millisecond, MustKeepInterval: 0, RemoveOldInstancesInterval: time.Nanosecond}
 	h := b.Handle("ro")
 	nd := NewNode("ro", env, h, conf, config.LMDB{SchemaTracksChanges: c.Native}, syncer.Options{ReceiveOnly: true})
+	ndForClose = nd
 	defer nd.Forget()
 	defer nd.Stop()
 	// old snapshots of two peers (several each, so that a cleaner would have something to delete)
